@@ -79,6 +79,7 @@ type sched struct {
 	seq     int
 	r       *Run
 	// oracle bookkeeping
+	exitBy    map[uint64]*callRec // value -> the client call whose goroutine ran its OnExit (nil: applier)
 	exitSeq   map[uint64]int // value -> seq of first OnExit
 	exitCnt   map[uint64]int
 	evictCnt  map[uint64]int
@@ -276,7 +277,7 @@ func runCacheCase(r *Run, mode string, seed int64, sample bool) {
 }
 
 func cacheCaseBody(r *Run, rng *rand.Rand, cfg cacheCfg, nClients int, sample bool) {
-	s := &sched{byGoid: map[uint64]*gor{}, r: r, applyT: map[uint64]time.Time{}, exitSeq: map[uint64]int{}, exitCnt: map[uint64]int{},
+	s := &sched{byGoid: map[uint64]*gor{}, r: r, applyT: map[uint64]time.Time{}, exitBy: map[uint64]*callRec{}, exitSeq: map[uint64]int{}, exitCnt: map[uint64]int{},
 		evictCnt: map[uint64]int{}, rejectCnt: map[uint64]int{}}
 	ristretto.VerifPointFn = s.point
 	ristretto.VerifObserveFn = s.observe
@@ -303,6 +304,7 @@ func cacheCaseBody(r *Run, rng *rand.Rand, cfg cacheCfg, nClients int, sample bo
 			if v != 0 {
 				if _, ok := s.exitSeq[v]; !ok {
 					s.exitSeq[v] = s.seq
+					s.exitBy[v] = g.rec
 				}
 				s.exitCnt[v]++
 			}
@@ -827,6 +829,32 @@ func oracleFinal(r *Run, s *sched, cfg cacheCfg, cache *ristretto.Cache[uint64, 
 				r.FailSig("C04", "F8", fmt.Sprintf("value %d (key %d) accepted but never passed to OnExit, not even by Close (colliding primary hashes)", c.val, c.key), in)
 			} else {
 				r.Fail("C04", fmt.Sprintf("value %d (key %d) accepted but never passed to OnExit, not even by Close", c.val, c.key), in)
+			}
+		}
+	}
+	// C04: "... no later than the return of the next Clear or Close"
+	for _, cl := range calls {
+		if (cl.kind != "clear" && cl.kind != "close") || cl.endSeq == 0 {
+			continue
+		}
+		for _, w := range calls {
+			if w.kind != "set" || !w.ok || w.endSeq == 0 || w.endSeq > cl.startSeq {
+				continue
+			}
+			es, exited := s.exitSeq[w.val]
+			if exited && es < cl.endSeq {
+				continue
+			}
+			what := fmt.Sprintf("value %d (key %d) was accepted before %s started but had not been passed to OnExit when it returned", w.val, w.key, cl.kind)
+			by := s.exitBy[w.val]
+			switch {
+			case exited && by != nil && by.startSeq < cl.endSeq && (by.kind == "set" || by.kind == "del"):
+				// released by a Set/Del call that overlaps the Clear: its OnExit(prev) runs outside every lock
+				r.FailSig("C04", "F12", what+" (it was released slightly later by the overlapping "+by.kind+" call that had replaced it)", in)
+			case !exited && cfg.mode == "collide":
+				r.FailSig("C04", "F8", what+" (colliding primary hashes)", in)
+			default:
+				r.Fail("C04", what, in)
 			}
 		}
 	}
